@@ -45,6 +45,7 @@ def setup(ctx):
     ctx.require("monitor", "l2_other_success_statuses", 20)
     ctx.require("monitor", "l2_empty_meta", 10)
     ctx.require("monitor", "l3_resumed_sessions", 8)
+    ctx.require("monitor", "l2_request_in_two_records", 15)
     ctx.require("monitor", "l2_text_bodies_with_charset_parameter", 15)
     ctx.require("monitor", "static_files_rewritten_while_serving", 12)
     ctx.require("monitor", "static_files_with_special_text", 8)
@@ -233,7 +234,21 @@ def run_l2(ctx):
                             # rest of the response waits in the server's transport buffer and is still owed
                             bench.prompt_reader(rng.choice([64, 4096, 65536]))
                             ctx.count("monitor", "l2_bounded_pipe")
-                        bench.client_send(req)
+                        how_sent = idx % 6
+                        if how_sent == 1:
+                            # a bursty writer: the request leaves in two TLS records that reach the server in one read
+                            # (cut between CR and LF, or after the first byte)
+                            cut = len(req) - 1 if idx % 4 < 2 else 1
+                            bench.client_send_records([req[:cut], req[cut:]])
+                            ctx.count("monitor", "l2_request_in_two_records")
+                        elif how_sent == 4:
+                            cut = len(req) - 1 if idx % 4 < 2 else len(req) - 2
+                            bench.client_send(req[:cut])
+                            loop.advance(0.01)
+                            bench.client_send(req[cut:])
+                            ctx.count("monitor", "l2_request_in_two_records")
+                        else:
+                            bench.client_send(req)
                     if mode.startswith("async-slow"):
                         loop.advance(0.25)
                         bench.client_send(rng.choice([b"\r\n", b"gemini://localhost/other\r\n", b"x" * 40 + b"\r\n", b"\r\n\r\n"]))
